@@ -117,6 +117,17 @@ fn profile(name: &str) -> RawCfg {
             prefill_bytes: 3000,
             ..base
         },
+        // in-place updates of flushed bytes (write_at, batch_write_each) and their durability
+        "crash_inplace" => RawCfg {
+            names: 2,
+            sizes: vec![],
+            at_sizes: vec![50],
+            offs: vec![Off::Zero, Off::Mid],
+            kinds: kinds(&["write_at", "batch_write", "flush", "region_flush"]),
+            prefill: 2,
+            prefill_bytes: 3000,
+            ..base
+        },
         "crash_compact" => RawCfg {
             names: 3,
             sizes: vec![5000],
@@ -376,9 +387,9 @@ fn crash_plan(property: &str, tier: &str) -> Vec<(&'static str, usize)> {
     match property {
         "C05" => {
             if quick {
-                vec![("crash2", 3), ("crash_fresh", 4)]
+                vec![("crash2", 3), ("crash_fresh", 4), ("crash_inplace", 2)]
             } else {
-                vec![("crash2", 5), ("crash3", 4), ("crash_fresh", 6), ("crash_edit", 4)]
+                vec![("crash2", 5), ("crash3", 4), ("crash_fresh", 6), ("crash_edit", 4), ("crash_inplace", 5)]
             }
         }
         "C12" => {
